@@ -342,6 +342,35 @@ fn do_read(bytes: &[u8]) -> Out<GdsLibrary> {
         Err(p) => Out::Panic(panic_msg(p)),
     }
 }
+/// scratch file of this process for the file-system entry points (GdsLibrary::save / open / load)
+fn scratch_path() -> std::path::PathBuf {
+    let dir = std::path::Path::new("/verif/work/c01/tmp");
+    std::fs::create_dir_all(dir).unwrap();
+    dir.join(format!("f{}.gds", std::process::id()))
+}
+/// GdsLibrary::save, then the bytes found in the file
+fn do_save(lib: &GdsLibrary, path: &std::path::Path) -> Out<Vec<u8>> {
+    let r = catch_unwind(AssertUnwindSafe(|| lib.save(path)));
+    match r {
+        Ok(Ok(())) => Out::Ok(std::fs::read(path).expect("harness: read scratch file back")),
+        Ok(Err(e)) => Out::Err(ekind(&e).to_string()),
+        Err(p) => Out::Panic(panic_msg(p)),
+    }
+}
+fn do_open(path: &std::path::Path, alias: bool) -> Out<GdsLibrary> {
+    let r = catch_unwind(AssertUnwindSafe(|| {
+        if alias {
+            GdsLibrary::load(path)
+        } else {
+            GdsLibrary::open(path)
+        }
+    }));
+    match r {
+        Ok(Ok(l)) => Out::Ok(l),
+        Ok(Err(e)) => Out::Err(ekind(&e).to_string()),
+        Err(p) => Out::Panic(panic_msg(p)),
+    }
+}
 fn jw(o: &Out<Vec<u8>>, want_bytes: bool) -> Value {
     match o {
         Out::Ok(b) => {
@@ -386,6 +415,38 @@ fn run(case: &Value) -> Value {
                 out["r"] = jr(&r);
             }
             out
+        }
+        // library -> GdsLibrary::save(file) -> bytes of the file -> GdsLibrary::open(file): the same shape of result as
+        // write_read. `old_len` > 0: the file exists already and holds that many bytes of an older, longer content
+        // (a save that does not replace the whole file leaves a tail); 0: the file does not exist.
+        "save_open" => {
+            let lib = lib_of(&case["lib"]);
+            let path = scratch_path();
+            let old_len = case["old_len"].as_u64().unwrap_or(0) as usize;
+            let _ = std::fs::remove_file(&path);
+            if old_len > 0 {
+                std::fs::write(&path, vec![0xEEu8; old_len]).expect("harness: write scratch file");
+            }
+            let w = do_save(&lib, &path);
+            let mut out = json!({"w": jw(&w, true)});
+            if let Out::Ok(_) = &w {
+                let r = do_open(&path, false);
+                if let Out::Ok(l2) = &r {
+                    out["eq"] = json!(*l2 == lib);
+                }
+                out["r"] = jr(&r);
+            }
+            let _ = std::fs::remove_file(&path);
+            out
+        }
+        // bytes -> file -> GdsLibrary::load(file) (the alias of open)
+        "read_file" => {
+            let b = bytes_of(&case["bytes"]);
+            let path = scratch_path();
+            std::fs::write(&path, &b).expect("harness: write scratch file");
+            let r = do_open(&path, true);
+            let _ = std::fs::remove_file(&path);
+            json!({"r": jr(&r)})
         }
         // bytes -> library
         "read" => {
